@@ -28,6 +28,8 @@
 (*   "indef"   every sequence, map and struct body indefinite              *)
 (*   "extraF" / "extraB"  an unknown field in front of / behind the known  *)
 (*             fields of every struct body that has no flattened field     *)
+(* and one it may refuse but must never misread (value or error):          *)
+(*   "allindef" like "indef", and every tuple / fixed array indefinite too *)
 (***************************************************************************)
 EXTENDS Builtin
 
@@ -82,7 +84,7 @@ SerFieldsM(fs, xs, i, m) ==
    \o SerFieldsM(fs, xs, i + 1, m)
 \* a struct body: a map keyed by field name
 SBody(fs, xs, m, lead) ==   \* lead: entries written before the fields (the tag of an internally tagged enum), as <<count, bytes>>
-   IF HasFlat(fs) \/ m = "indef" THEN <<191>> \o lead[2] \o SerFieldsM(fs, xs, 1, m) \o <<255>>
+   IF HasFlat(fs) \/ m \in {"indef", "allindef"} THEN <<191>> \o lead[2] \o SerFieldsM(fs, xs, 1, m) \o <<255>>
    ELSE LET n == lead[1] + CountFields(fs, xs, 1) IN
         CASE m = "extraF" -> SHead(m, 5, FromNat(n + 1)) \o lead[2] \o ExtraEntry \o SerFieldsM(fs, xs, 1, m)
           [] m = "extraB" -> SHead(m, 5, FromNat(n + 1)) \o lead[2] \o SerFieldsM(fs, xs, 1, m) \o ExtraEntry
@@ -98,10 +100,11 @@ SerEncM(d, v, m) ==
      [] d.s = "bytes"  -> SHead(m, 2, FromNat(Len(v.b))) \o v.b
      [] d.s = "unit"   -> <<128>>
      [] d.s = "opt"    -> IF v.k = "none" THEN <<246>> ELSE SerEncM(d.e, v.x, m)
-     [] d.s = "tuple"  -> SHead(m, 4, FromNat(Len(d.es))) \o SerTupM(d.es, v.xs, 1, m)
-     [] d.s = "seq"    -> IF d.indef \/ m = "indef" THEN <<159>> \o SerSeqM(d.e, v.xs, m) \o <<255>>
+     [] d.s = "tuple"  -> IF m = "allindef" THEN <<159>> \o SerTupM(d.es, v.xs, 1, m) \o <<255>>
+                          ELSE SHead(m, 4, FromNat(Len(d.es))) \o SerTupM(d.es, v.xs, 1, m)
+     [] d.s = "seq"    -> IF d.indef \/ m \in {"indef", "allindef"} THEN <<159>> \o SerSeqM(d.e, v.xs, m) \o <<255>>
                           ELSE SHead(m, 4, FromNat(Len(v.xs))) \o SerSeqM(d.e, v.xs, m)
-     [] d.s = "map"    -> IF d.indef \/ m = "indef" THEN <<191>> \o SerMapM(d.kd, d.vd, v.xs, m) \o <<255>>
+     [] d.s = "map"    -> IF d.indef \/ m \in {"indef", "allindef"} THEN <<191>> \o SerMapM(d.kd, d.vd, v.xs, m) \o <<255>>
                           ELSE SHead(m, 5, FromNat(Len(v.xs))) \o SerMapM(d.kd, d.vd, v.xs, m)
      [] d.s = "struct" -> SBody(d.fs, v.xs, m, NoLead)
      [] d.s = "enum"   ->
